@@ -298,9 +298,33 @@ Definition spec_eq (o : op) (ob : sobs) : bool :=
   | _ => true
   end.
 
+(* round 4, S4: a call that raised (the caller survives it inside try/except) leaves the program and every held tree exactly
+   as they were observed before the call.  Excepted: the recursive operations reverse_inplace / cleanup / flatten_and_balance,
+   where a failure deep down leaves the work done so far (the code's and the model's behaviour; the invariant is kept). *)
+Definition rejecting (k : okind) : bool :=
+  match k with KIndex | KType | KValue | KRuntime | KAssert => true | _ => false end.
+Definition partial_op (o : op) : bool := match o with OReverse _ | OCleanup _ _ _ => true | _ => false end.
+Definition partial_fop (o : fop) : bool :=
+  match o with FMain o' | FAt _ o' => partial_op o' | FFlatten _ _ _ => true | _ => false end.
+Fixpoint noeff_hist (prev : otree) (steps : list (op * sobs)) : bool :=
+  match steps with
+  | [] => true
+  | (o, ob) :: r =>
+      (if rejecting (s_out ob) && negb (partial_op o) then otree_eqb prev (s_tree ob) else true) && noeff_hist (s_tree ob) r
+  end.
+Fixpoint noeff_forest (prev : otree) (ph : list (option otree)) (steps : list (fop * fsobs)) : bool :=
+  match steps with
+  | [] => true
+  | (o, ob) :: r =>
+      (if rejecting (s_out (fs_main ob)) && negb (partial_fop o)
+       then otree_eqb prev (s_tree (fs_main ob)) && list_eqb opt_otree_eqb ph (fs_held ob) else true)
+      && noeff_forest (s_tree (fs_main ob)) (fs_held ob) r
+  end.
+
 Definition check_spec (c : case) : bool :=
   match c with
   | CHist _ steps => forallb (fun '(o, ob) => spec_tree (s_tree ob) [] true 0 [] && spec_eq o ob) steps
+                     && match steps with (_, ob) :: r => noeff_hist (s_tree ob) r | [] => true end
   | CForest _ steps =>
       (* the program keeps the invariant whatever is done to nodes that dropped out of it, and (round 3, after the merged
          child is emptied) so does every tree the user still holds: durations, positions and parents below the held node,
@@ -309,6 +333,7 @@ Definition check_spec (c : case) : bool :=
                                && spec_tree (s_tree (fs_main ob)) [] true 0 []
                                && forallb (fun t => match t with Some t' => spec_tree t' [] true 0 [] | None => true end)
                                           (fs_held ob)) steps
+      && match steps with (_, ob) :: r => noeff_forest (s_tree (fs_main ob)) (fs_held ob) r | [] => true end
   | CCrash => false
   end.
 
